@@ -1,7 +1,9 @@
 """C18 -- inventory resolution returns a maximal matching artifact; checksums round-trip."""
 import itertools
+import tomllib
 
 from common import *  # noqa
+from fsgen import cq_tv
 
 VERS = [(1, 1), (1, 2), (2, 1), (2, 2), (3, 0)]
 
@@ -26,14 +28,14 @@ ERR = {"missing_prefix": "MissingPrefix", "incompatible_prefix": "IncompatiblePr
 class C18:
     id = "C18"
     stream = "c18"
-    translator_prefixes = ["inventory"]
+    translator_prefixes = ["inventory", "serde schema"]
     coq_targets = ["theories/Checks/C18Hold.vo", "theories/Checks/C18Agree.vo", "theories/Props/C18.vo"]
     hold_target = "theories/Checks/C18Hold.vo"
     agree_target = "theories/Checks/C18Agree.vo"
     hold_mod = "C18Hold"
     agree_mod = "C18Agree"
     per_shard = 250
-    extra_imports = "From LV Require Import Inventory.\n"
+    extra_imports = "From LV Require Import Toml Serde Inventory InventoryToml.\n"
     rule = ("resolve: every inventory of 0..4 artifacts over 5 versions (product partial order / lexicographic total "
             "order, incl. duplicates and incomparable pairs) with fixed os/arch/meta, plus seeded random inventories "
             "of up to 6 artifacts over all attributes; 6 queries each (matching all, a random allowed subset, other "
@@ -46,7 +48,7 @@ class C18:
         "translator (syn): partial_max_by_key replacement arms, filter conjuncts, sha2 digest names",
         "Rust harness with test version types (product PartialOrd, lexicographic Ord) through the public Inventory API",
         "Iterator::max_by_key semantics (last maximum) as environment model, validated by exact-index correspondence",
-        "serde/toml round trip of Inventory observed (rt_eq), modelled at tree level in Serde.v when built",
+        "Serde.v schema interpreter as the model of serde derive + the toml crate's data model for Inventory (schema regenerated from the derives); Python tomllib as the independent reader of the rendered text",
     ]
     assumptions = ["PartialOrd implementations satisfy irreflexivity and the two transitivity laws (porder_laws)"]
 
@@ -119,7 +121,15 @@ class C18:
         return cases
 
     def run_impl(self, cases, workdir):
-        return run_harness(self.stream, cases, workdir)
+        obs = run_harness(self.stream, cases, workdir)
+        for c in cases:
+            if c["kind"] == "toml":
+                o = obs[c["id"]]
+                try:      # the independent TOML 1.0 reader of the rendered text
+                    o["tree"] = tomllib.loads(bytes(o["text"]).decode("utf-8"))
+                except Exception as e:
+                    o["tree"], o["toml_error"] = None, str(e)[:200]
+        return obs
 
     def to_coq(self, c, o):
         if c["kind"] == "resolve":
@@ -137,7 +147,15 @@ class C18:
             else:
                 ob = f"(CkErr {ERR[o['err']]})"
             return f"(CChecksum {cq_bytes(c['s'])} {ob})"
-        return f"(CToml {len(c['arts'])} {cq_bool(o['parse_ok'])} {cq_bool(o['rt_eq'])})"
+        arts = []
+        for a in c["arts"]:
+            ver = ("%d.%d.0" % tuple(a["ver"])).encode()
+            meta = "(VOpt None)" if a["meta"] is None else f"(VOpt (Some (VStr {cq_bytes(a['meta'])})))"
+            arts.append("(mkTArt (VStr %s) %s %s %s (%s, %s) %s)" % (
+                cq_bytes(ver), "Linux" if a["os"] == "linux" else "Darwin", "Arm64" if a["arch"] == "arm64" else "Amd64",
+                cq_bytes(a["url"]), cq_bytes(b"sha256"), cq_bytes(a["digest"]), meta))
+        tree = "None" if o.get("tree") is None else f"(Some {cq_tv(o['tree'])})"
+        return f"(CToml {cq_list(arts)} {tree} {cq_bool(o['parse_ok'])} {cq_bool(o['rt_eq'])})"
 
     def nontrivial(self, c, o):
         if c["kind"] == "resolve":
